@@ -921,14 +921,16 @@ RULES = {
         ("self . to_u64 ( ) . as_ref ( ) . and_then ( u64 :: to_i64 )", "match self . to_u64 ( ) { Some ( v__ ) => __u64_to_i64 ( v__ ) , None => None , }"),
         ("self . to_u128 ( ) . as_ref ( ) . and_then ( u128 :: to_i128 )", "match self . to_u128 ( ) { Some ( v__ ) => __u128_to_i128 ( v__ ) , None => None , }"),
     ]),
-    "R56": MultiRule("R56", "float tails of to_f64 / to_f32 over the local float model (prelude/floatmodel.rs): `(m as f64)`, `2.0f64.powi(e as i32)`, `*`, `f64::INFINITY`, unary minus and the f32 twins -> model helpers (IEEE semantics named, not interpreted); return types f64 / f32 -> MF64 / MF32; the generic fls at T = u64", [
+    "R56": MultiRule("R56", "float tails of to_f64 / to_f32 over the local float model (prelude/floatmodel.rs): `(m as f64)`, `2.0f64.powi(E)`, `*`, `f64::INFINITY`, `f64::MAX_EXP` (std: `pub const MAX_EXP: i32`, 1024 / 128), unary minus and the f32 twins -> model helpers (IEEE semantics named, not interpreted); return types f64 / f32 -> MF64 / MF32; the generic fls at T = u64", [
         ("Option < f64 >", "Option < MF64 >"),
         ("Option < f32 >", "Option < MF32 >"),
         ("Some ( f64 :: INFINITY )", "Some ( __f64_infinity ( ) )"),
         ("Some ( f32 :: INFINITY )", "Some ( __f32_infinity ( ) )"),
-        ("Some ( ( mantissa as f64 ) * 2.0f64 . powi ( exponent as i32 ) )", "Some ( __u64_as_f64 ( mantissa ) . mul ( __f64_pow2 ( exponent as i32 ) ) )"),
-        ("Some ( ( mantissa as f32 ) * 2.0f32 . powi ( exponent as i32 ) )", "Some ( __u64_as_f32 ( mantissa ) . mul ( __f32_pow2 ( exponent as i32 ) ) )"),
+        ("Some ( ( mantissa as f64 ) * 2.0f64 . powi ( $$e ) )", "Some ( __u64_as_f64 ( mantissa ) . mul ( __f64_pow2 ( $$e ) ) )"),
+        ("Some ( ( mantissa as f32 ) * 2.0f32 . powi ( $$e ) )", "Some ( __u64_as_f32 ( mantissa ) . mul ( __f32_pow2 ( $$e ) ) )"),
         ("f32 :: MAX_EXP as u64", "128u64"),
+        ("f64 :: MAX_EXP", "1024i32"),
+        ("f32 :: MAX_EXP", "128i32"),
         ("fls ( mantissa )", "fls64 ( mantissa )"),
         ("Some ( if self . sign == Minus { - n } else { n } )", "Some ( if self . sign == Minus { n . negf ( ) } else { n } )"),
     ]),
